@@ -77,6 +77,11 @@ def _ownership(ck, f, expr, roles, rule):
             probs.append('`%s` does not compare a coordinate with a tile bound' % u(c))
             continue
         got[side] = (coord, k)
+    # the coordinates compared are the ones the function was given (no wrapping / shifting before the test)
+    for pname in f.params:
+        if pname.lower() in ('lon', 'lat', 'lons', 'lats') and find_assignments(f, pname):
+            probs.append('`%s` is recomputed before the bounds test (`%s`): the point tested is not the point asked about'
+                         % (pname, u(find_assignments(f, pname)[0])[:70]))
     want = {'west': ('lon', ast.GtE), 'south': ('lat', ast.GtE), 'east': ('lon', ast.Lt), 'north': ('lat', ast.Lt)}
     for side, (coord, k) in want.items():
         if side not in got:
